@@ -57,11 +57,12 @@ def gen_sched_ops(rng, n_evals=8):
 
 class ProgGen:
     def __init__(self, rng, case, uid, *, allow_sub=True, allow_fb=True, allow_sched=False, allow_delay=True,
-                 allow_passive=True, max_depth=2, nested_only=None):
+                 allow_passive=True, max_depth=2, nested_only=None, allow_ite=False):
         self.rng, self.case, self.uid = rng, case, uid
         self.allow_sub, self.allow_fb, self.allow_sched = allow_sub, allow_fb, allow_sched
         self.allow_delay, self.allow_passive, self.max_depth = allow_delay, allow_passive, max_depth
         self.nested_only = nested_only      # None: random inline/nested; "inline"/"nested": forced
+        self.allow_ite = allow_ite
         self.next_sid = 0
 
     def source(self, stmts, name, rel=False):
@@ -123,14 +124,23 @@ class ProgGen:
                 ports.append(nm)
                 continue
             ops = [(o, a, w) for o, a, w in COMPUTE_OPS if (o != "delay" or self.allow_delay)]
+            if self.allow_ite:
+                ops.append(("ite", 3, 6))
             op, arity, _ = rng.choices(ops, weights=[w for _, _, w in ops])[0]
             args = []
             for q in range(arity):
                 a = self.pick(ports)
+                if op == "ite" and q > 0:
+                    # value inputs of a selection: never a sub-graph parameter (a reference crossing a nested boundary into
+                    # another selection has boundary-specific unset/empty semantics the property does not define)
+                    cands = [p for p in ports if p not in params] or ports
+                    a = rng.choice(cands)
                 if self.allow_passive and op in ("add2", "add3", "gate") and arity > 1 and q > 0 and rng.random() < 0.15:
                     a = "~" + a
                 args.append(a)
             kw = dict(uid=self.uid())
+            if op == "ite":
+                nested_results.add(nm)      # F12 avoidance: a sub-graph never returns a reference-shaped port directly
             if op == "delay":
                 kw["k"] = rng.choice([1, 1, 2, 3, 6])
             stmts.append(S(nm, op, *args, **kw))
@@ -140,13 +150,13 @@ class ProgGen:
             cands = [p for p in ports if p not in fbs]
             stmts.append(S("", "bind", f, rng.choice(cands)))
         if want_ret:
-            cands = [p for p in ports if p not in fbs and p not in nested_results]
+            cands = [p for p in ports if p not in fbs and p not in nested_results and not (self.allow_ite and p in params)]
             if not cands:
                 nm = fresh()
                 stmts.append(S(nm, "pass", rng.choice([p for p in ports if p not in fbs] or ports), uid=self.uid()))
                 cands = [nm]
             # pass-through outputs (returning a parameter) are legal and interesting
-            if params and rng.random() < 0.1:
+            if params and rng.random() < 0.1 and not self.allow_ite:
                 stmts.append(S("", "RET", rng.choice(params)))
             else:
                 stmts.append(S("", "RET", cands[-1] if rng.random() < 0.6 else rng.choice(cands)))
